@@ -214,8 +214,6 @@ def obligations(tier, seed):
     obs = []
     for kind in ("dict", "set", "frozenset"):
         for uni in ORDER_UNIVERSES:
-            if kind == "dict" and uni == "frozensets" and tier == "quick":
-                continue
             obs.append({"name": "order/%s/%s" % (kind, uni), "fn": "ob_order", "mode": "S",
                         "params": {"kind": kind, "universe": uni}, "timeout": 600,
                         "bounds": "two of the 24 insertion orders of 4 items (%s), flat or nested, md5 or sha1" % uni})
